@@ -17,7 +17,7 @@ class Unsupported(Exception):
     pass
 
 
-TOK = re.compile(r"\s*(?:(\d+)|([A-Za-z_][A-Za-z_0-9]*(?:(?:::|\.)[A-Za-z_][A-Za-z_0-9]*)*)|(\|\||&&|<=|>=|==|!=|\+=|-=|=>|[-+*/<>=!(),;{}]))")
+TOK = re.compile(r"\s*(?:(\d+)|([A-Za-z_][A-Za-z_0-9]*(?:(?:::|\.)[A-Za-z_][A-Za-z_0-9]*)*)|(\|\||&&|<=|>=|==|!=|\+=|-=|=>|[-+*/%<>=!(),;{}]))")
 
 
 def tokenize(src):
@@ -130,7 +130,7 @@ class Tr:
 
     def p_mul(self):
         e = self.p_unary()
-        while self.at("*") or self.at("/"):
+        while self.at("*") or self.at("/") or self.at("%"):
             op = self.peek()[1]
             self.p += 1
             r = self.p_unary()
@@ -140,6 +140,11 @@ class Tr:
                     e = ("(Int.tdiv %s %s)" % (e[0], r[0]), "Int")
                 else:
                     e = ("(%s / %s)" % (self.num(e), self.num(r)), e[1])
+            elif op == "%":
+                if e[1] == "Int":
+                    e = ("(Int.tmod %s %s)" % (e[0], r[0]), "Int")
+                else:
+                    e = ("(%s %% %s)" % (self.num(e), self.num(r)), e[1])
             else:
                 e = ("(%s * %s)" % (self.num(e), self.num(r)), e[1])
         return e
